@@ -83,9 +83,32 @@ BODIES = [
     ("query_big", lambda h: (len(h.Q.query), h.Q.query.get("k33"), h.Q.query_string[:9])),
     ("join_a", lambda h: (str(h.T.join(h.R1)), str(h.T.join(h.R1)), str(h.B.join(h.R1)))),
     ("join_b", lambda h: (str(h.T.join(h.R2)), str(h.B.join(h.R2)), str(h.T.join(h.R2)))),
+    # twin bodies: the SAME methods of the SAME shared objects with different arguments, every call made twice (a per-object or
+    # module-level "last call" memo read in two steps hands one thread the other's result)
+    ("path_a", lambda h: _twice(h, lambda u: (str(u.with_path("/n1/x.t")), str(u.with_name("n1.a")), str(u.with_suffix(".s1")), str(u / "c1"),
+                                           str(u.joinpath("j1", "k1"))))),
+    ("path_b", lambda h: _twice(h, lambda u: (str(u.with_path("/n2")), str(u.with_name("n2")), str(u.with_suffix(".s2")), str(u / "c2/d2"),
+                                           str(u.joinpath("j2"))))),
+    ("query_a", lambda h: _twice(h, lambda u: (str(u.with_query("x=1")), str(u.extend_query(e="1")), str(u % {"m": "1"}),
+                                            str(u.without_query_params("a")), str(u.with_fragment("f1"))))),
+    ("query_b", lambda h: _twice(h, lambda u: (str(u.with_query({"y": "2"})), str(u.extend_query("e=2")), str(u % "m=2"),
+                                            str(u.without_query_params("b")), str(u.with_fragment("f2"))))),
+    ("auth_a", lambda h: _twice(h, lambda u: (str(u.with_user("u1")), str(u.with_password("p1")), str(u.with_host("h1.example")), str(u.with_port(1)),
+                                           str(u.with_scheme("https")), str(u.origin()), str(u.relative())))),
+    ("auth_b", lambda h: _twice(h, lambda u: (str(u.with_user(None)), str(u.with_password("p2")), str(u.with_host("::2")), str(u.with_port(None)),
+                                           str(u.with_scheme("ws")), str(u.origin()), str(u.relative())))),
     ("pickle", lambda h: (str(pickle.loads(pickle.dumps(h.T))), h.C.path, h.C.human_repr())),
 ]
 CACHE_BODIES = {6, 7}
+TWINS = [("path_a", "path_b"), ("query_a", "query_b"), ("auth_a", "auth_b")]
+
+
+def _twice(h, fn):
+    return (fn(h.T), fn(h.T))
+
+
+def _idx(name):
+    return [n for n, _ in BODIES].index(name)
 
 
 def _configure(n):
@@ -318,12 +341,18 @@ def plan(ctx):
     quick = ctx.tier == "quick"
     n = len(BODIES)
     tasks = []
-    pairs = list(itertools.combinations_with_replacement(range(n), 2))
+    twin_ids = {_idx(x) for t in TWINS for x in t}
+    general = [i for i in range(n) if i not in twin_ids]
+    if quick:
+        # twin bodies meet their counterpart only (thorough: everything with everything)
+        pairs = list(itertools.combinations_with_replacement(general, 2)) + [(_idx(a), _idx(b)) for a, b in TWINS]
+    else:
+        pairs = list(itertools.combinations_with_replacement(range(n), 2))
     small = {0, 1}      # the two accessor bodies racing on one cold object: bound 2 is affordable there
     for b in BACKENDS:
         for ids in pairs:
             if quick:
-                bound, budget = (2, 6000) if set(ids) <= small else (1, 2500)
+                bound, budget = (2, 6000) if set(ids) <= small else (1, 20000) if set(ids) <= twin_ids else (1, 2500)
             else:
                 bound, budget = 2, 15000
             tasks.append(("checks.C20", "task_tuple", (ids, bound, budget), b, "p"))
